@@ -325,21 +325,30 @@ class AsyncHTTP2Connection(AsyncConnectionInterface):
 
         assert isinstance(request.stream, typing.AsyncIterable)
         async for data in request.stream:
-            await self._send_stream_data(request, stream_id, data)
+            if not await self._send_stream_data(request, stream_id, data):
+                # The server has finished with the stream already: there is no
+                # point in sending it the rest of the body.
+                return
         await self._send_end_stream(request, stream_id)
 
     async def _send_stream_data(
         self, request: Request, stream_id: int, data: bytes
-    ) -> None:
+    ) -> bool:
         """
         Send a single chunk of data in one or more data frames.
+
+        Returns `False` if the server ended or reset the stream while we were
+        waiting for flow control credit.
         """
         while data:
             max_flow = await self._wait_for_outgoing_flow(request, stream_id)
+            if max_flow <= 0:
+                return False
             chunk_size = min(len(data), max_flow)
             chunk, data = data[:chunk_size], data[chunk_size:]
             self._h2_state.send_data(stream_id, chunk)
             await self._write_outgoing_data(request)
+        return True
 
     async def _send_end_stream(self, request: Request, stream_id: int) -> None:
         """
@@ -673,9 +682,18 @@ class AsyncHTTP2Connection(AsyncConnectionInterface):
         If the allowable flow is zero, then waits on the network until
         WindowUpdated frames have increased the flow rate.
         https://tools.ietf.org/html/rfc7540#section-6.9
+
+        Returns zero if the server ends or resets the stream meanwhile: it has
+        answered (or refused) the request without waiting for the rest of the
+        body, and will not send any more flow control credit for it.
         """
         flow = self._outgoing_flow(stream_id)
         while flow <= 0:
+            if any(
+                isinstance(event, (h2.events.StreamEnded, h2.events.StreamReset))
+                for event in self._events.get(stream_id) or []
+            ):
+                return 0
             await self._receive_events(request, flow_control_stream_id=stream_id)
             flow = self._outgoing_flow(stream_id)
         return flow
